@@ -195,9 +195,10 @@ def family : Family where
       -- any TPL image format through a single-image TPL (exact-size image data): the parse accepts the
       -- format numbers of `TplImageFormat`, then `extract_textures` decodes (only CI8 succeeds)
       let (fmt, w, h, palette, image) := (fmt.toNat!, w.toNat!, h.toNat!, bufOfHex palette, bufOfHex image)
+      -- a format number outside `TplImageFormat` is rejected by the parse whatever the data size
+      if !tplImageFormatOk fmt then out "err Other" "ok skip" else
       if image.size ≠ tplImageBytes fmt h w then out "bad-case" "ok skip bad-case" else
-      let m := if tplImageFormatOk fmt then resBuf (tplDecodeImage 2 palette fmt h w image) else "err Other"
-      out m "ok skip"
+      out (resBuf (tplDecodeImage 2 palette fmt h w image)) "ok skip"
     | [_, "probe", fmt, w, h] =>
       let (fmt, w, h) := (fmt.toNat!, w.toNat!, h.toNat!)
       -- the harness computes the required size in integer arithmetic: bits-per-pixel table × w × h / 8
